@@ -9,13 +9,13 @@
 package ceval
 
 import (
-	"strconv"
 	"bytes"
 	"fmt"
 	"go/ast"
 	"go/constant"
 	"go/token"
 	"go/types"
+	"strconv"
 	"strings"
 
 	"golang.org/x/tools/go/packages"
@@ -48,10 +48,10 @@ type Func struct {
 type Status int
 
 const (
-	OK Status = iota
-	Panic       // index or slice out of range, nil dereference
-	Unsupported // outside the evaluator's vocabulary
-	Diverged    // step budget exhausted
+	OK          Status = iota
+	Panic              // index or slice out of range, nil dereference
+	Unsupported        // outside the evaluator's vocabulary
+	Diverged           // step budget exhausted
 )
 
 type stop struct {
@@ -65,14 +65,14 @@ type stop struct {
 type External func(fn *types.Func, recv interface{}, args []interface{}) (res []interface{}, handled bool)
 
 type Interp struct {
-	Pkgs   []*packages.Package
-	Ext    External
-	Budget int
-	decls  map[*types.Func]*ast.FuncDecl
-	infoOf map[*ast.FuncDecl]*types.Info
-	steps  int
+	Pkgs    []*packages.Package
+	Ext     External
+	Budget  int
+	decls   map[*types.Func]*ast.FuncDecl
+	infoOf  map[*ast.FuncDecl]*types.Info
+	steps   int
 	globals map[types.Object]interface{}
-	Reads  func(base string, index int) // optional: called for every element read of a Bytes field of a receiver
+	Reads   func(base string, index int) // optional: called for every element read of a Bytes field of a receiver
 }
 
 func New(pkgs ...*packages.Package) *Interp {
@@ -1360,6 +1360,63 @@ func (in *Interp) stdlib(fn *types.Func, args []interface{}) ([]interface{}, boo
 			return []interface{}{int64(strings.Index(a, b))}, true
 		case "EqualFold":
 			return []interface{}{strings.EqualFold(a, b)}, true
+		}
+	case "strings.SplitN", "strings.Split", "strings.SplitAfter", "strings.SplitAfterN":
+		a, ok1 := str(0)
+		b, ok2 := str(1)
+		n := int64(-1)
+		ok3 := true
+		if len(args) == 3 {
+			n, ok3 = args[2].(int64)
+		}
+		if ok1 && ok2 && ok3 {
+			var parts []string
+			if strings.HasPrefix(fn.Name(), "SplitAfter") {
+				parts = strings.SplitAfterN(a, b, int(n))
+			} else {
+				parts = strings.SplitN(a, b, int(n))
+			}
+			if parts == nil {
+				return []interface{}{Nil{}}, true
+			}
+			l := &List{}
+			for _, p := range parts {
+				l.Elems = append(l.Elems, p)
+			}
+			return []interface{}{l}, true
+		}
+	case "strings.IndexByte", "strings.LastIndexByte", "strings.IndexRune":
+		a, ok1 := str(0)
+		c, ok2 := args[1].(int64)
+		if ok1 && ok2 {
+			switch fn.Name() {
+			case "IndexByte":
+				return []interface{}{int64(strings.IndexByte(a, byte(c)))}, true
+			case "LastIndexByte":
+				return []interface{}{int64(strings.LastIndexByte(a, byte(c)))}, true
+			case "IndexRune":
+				return []interface{}{int64(strings.IndexRune(a, rune(c)))}, true
+			}
+		}
+	case "strings.LastIndex", "strings.Count", "strings.IndexAny":
+		a, ok1 := str(0)
+		b, ok2 := str(1)
+		if ok1 && ok2 {
+			switch fn.Name() {
+			case "LastIndex":
+				return []interface{}{int64(strings.LastIndex(a, b))}, true
+			case "Count":
+				return []interface{}{int64(strings.Count(a, b))}, true
+			case "IndexAny":
+				return []interface{}{int64(strings.IndexAny(a, b))}, true
+			}
+		}
+	case "strings.Cut":
+		a, ok1 := str(0)
+		b, ok2 := str(1)
+		if ok1 && ok2 {
+			x, y, f := strings.Cut(a, b)
+			return []interface{}{x, y, f}, true
 		}
 	case "strings.TrimLeft", "strings.TrimRight", "strings.Trim", "strings.TrimPrefix", "strings.TrimSuffix":
 		a, ok1 := str(0)
